@@ -342,7 +342,7 @@ def craft(rng, t, n):
 
 def probes(rng, t, n, S, count=7):
   """the base matrix, single/double-entry perturbations of it (so that exactly a few limits move),
-  an in-box random flow and an arbitrary matrix."""
+  an in-box random flow, an arbitrary matrix and an all-integer matrix."""
   R = len(S)
   out = [S]
   for _ in range(count - 3):
@@ -359,6 +359,7 @@ def probes(rng, t, n, S, count=7):
   flat = gen.gen_flow(rng, lb, hb)
   out.append([list(flat[r*n:(r + 1)*n]) for r in range(R)])
   out.append([[dy(rng, -6, 6) for _ in range(n)] for _ in range(R)])
+  out.append([[F(round(v)) for v in r] for r in S])          # all-integer entries (passed with an integer dtype by the oracle)
   return [[[fs(v) for v in row] for row in P] for P in out]
 
 
